@@ -774,6 +774,23 @@ def gen_c06(tier, seed):
         end = PC0 + len(main)
         ops = setup_ops(regs, mem, main + [0x70] * 4) + ['k:3e8', 'run:%x' % p.steps, 'gr', 'rw:%x' % ((sp - 4) & ~3), 'rw:%x' % ((sp - 8) & ~3)]
         g.add(ops + ['X:%x' % end], 'nest-depth-%d' % min(depth, 8))
+    # subroutine branches in both directions and at the limits of their displacement fields: BSBB / BSBH d ; ... ; RSB
+    for opc, lo, hi in ((0x37, -128, 127), (0x36, -32768, 32767)):
+        ds = [lo, lo + 1, -0x81 if opc == 0x36 else -0x7f, -0x40, -0x10, -3, 5, 0x10, 0x40, 0x7f, hi - 1, hi] + \
+             [r.randrange(lo, hi + 1) for _ in range(6 if tier == 'quick' else 60)]
+        for d in ds:
+            if -3 <= d <= 4:
+                continue
+            site = 0x710000
+            tgt = site + d
+            main = [opc] + ([d & 0xff] if opc == 0x37 else [d & 0xff, (d >> 8) & 0xff]) + [0x70] * 6
+            sub = ins(OP['MOVW'], immw(r.randrange(1 << 32)), reg(r.choice([0, 1, 2]))) + [0x78]
+            if tgt < site + len(main) and tgt + len(sub) > site:
+                continue
+            regs = rnd_regs(r, psw_of(r.choice(allflags())))
+            regs[12] = STK
+            ops = setup_ops(regs, [(tgt, sub)], main, site) + ['k:3e8', 'st', 'gr', 'rw:%x' % STK, 'st', 'st', 'gr']
+            g.add(ops, 'bsb-displacement')
     # single instructions at the edges of RAM and with odd pointers (faults are compared with the model)
     for _ in range(200 if tier == 'quick' else 4000):
         psw = psw_of(r.choice(allflags()))
